@@ -2,7 +2,7 @@
    (coq/gen/RWLockGen.v), executed by the interpreter [mon_step], IS the abstract system [rw_step];
    hence every theorem of RWLockProofs.v holds of the regenerated program. *)
 From Coq Require Import List ZArith Bool Lia Arith.
-From PyCasbin Require Import Base RWLockLang RWLock RWLockProofs.
+From PyCasbin Require Import Base RWLockLang RWLock RWLockProofs RWLockTrace.
 From PyCasbinGen Require Import RWLockGen.
 Import ListNotations.
 Local Open Scope Z_scope.
@@ -31,32 +31,89 @@ Ltac zb' := repeat match goal with
   | H : (_ =? _) = false |- _ => apply Z.eqb_neq in H end.
 Ltac fin := norm; first [reflexivity | exfalso; zb'; lia | (f_equal; f_equal; zb'; lia)].
 
-Lemma tie : forall c i, mon_step rwlock_gen c i = rw_step c i.
+(* facts about the integer fields that hold in every configuration satisfying the invariant, given
+   the phase of the stepping thread; they let equivalent-on-reachable-states spellings of a test
+   (`<= 0` for `== 0`, `!= 0` for `> 0`) go through *)
+Lemma inv_facts c i t : Inv c -> nth_error (ths c) i = Some t ->
+  (0 <= ar c /\ 0 <= ww c /\ (wa c = true -> ar c = 0)) /\
+  (ph t = Inside Rd -> 1 <= ar c /\ wa c = false) /\
+  (ph t = Inside Wr -> wa c = true /\ ar c = 0) /\
+  (ph t = Woken Wr -> 1 <= ww c) /\
+  (ph t = Sleep Wr -> 1 <= ww c).
 Proof.
-  intros [a w b q l] i. unfold mon_step, rw_step. cbn [ths].
-  destruct (nth_error l i) as [[p td]|]; [|reflexivity].
-  destruct p as [|[|]|[|]|[|]]; cbn [ph todo]; try reflexivity;
-  try (destruct td as [|[|] td]; try reflexivity); norm; split_ifs; fin.
+  intros (I1 & I2 & I3 & I4 & _) Hn.
+  pose proof (fun p => cnt_nth p (ths c) i t Hn) as P.
+  repeat split; intros; try lia; auto.
+  - specialize (P _ H). lia.
+  - destruct (wa c); [specialize (I3 eq_refl); specialize (P _ H); lia | reflexivity].
+  - specialize (P _ H). destruct (wa c); [reflexivity | lia].
+  - specialize (P _ H). destruct (wa c); [auto | lia].
+  - specialize (P _ H). lia.
+  - specialize (P _ H). lia.
+Qed.
+
+Ltac use_facts F :=
+  destruct F as ((?F0 & ?F1 & ?F2) & ?F3 & ?F4 & ?F5 & ?F6); cbn [ph ar ww wa] in *;
+  repeat match goal with
+         | H : ?x = ?x -> _ |- _ => specialize (H eq_refl)
+         | H : Idle = _ -> _ |- _ => clear H
+         | H : Sleep _ = _ -> _ |- _ => clear H
+         | H : Woken _ = _ -> _ |- _ => clear H
+         | H : Inside _ = _ -> _ |- _ => clear H
+         end;
+  repeat match goal with H : _ /\ _ |- _ => destruct H end.
+
+Ltac fin_inv :=
+  norm;
+  first [ reflexivity
+        | exfalso; zb'; repeat match goal with H : true = true -> _ |- _ => specialize (H eq_refl) end;
+          first [lia | congruence]
+        | f_equal; f_equal; zb'; lia ].
+
+(* on every configuration satisfying the invariant (in particular every reachable one) the
+   regenerated program steps exactly like the abstract system *)
+Lemma tie_inv : forall c i, Inv c -> mon_step rwlock_gen c i = rw_step c i.
+Proof.
+  intros [a w b q l] i I. unfold mon_step, rw_step. cbn [ths].
+  destruct (nth_error l i) as [[p td]|] eqn:Hn; [|reflexivity].
+  pose proof (inv_facts _ i _ I Hn) as F. clear I Hn.
+  destruct p as [|[|]|[|]|[|]]; cbn [ph todo]; try reflexivity; use_facts F;
+  try (destruct td as [|[|] td]; try reflexivity); norm; split_ifs; fin_inv.
 Qed.
 
 Notation lock_step := (mon_step rwlock_gen).
 
-Lemma steps_tie c s c' : steps lock_step c s c' <-> steps rw_step c s c'.
+Lemma steps_tie c s c' : Inv c -> (steps lock_step c s c' <-> steps rw_step c s c').
 Proof.
-  split; induction 1; try constructor; econstructor; try eassumption;
-    [rewrite <- tie | rewrite tie]; assumption.
+  intro I. split; intro H.
+  - induction H as [c|c i c1 s c2 H1 H2 IH]; [constructor|].
+    rewrite (tie_inv _ _ I) in H1. econstructor; [exact H1 | apply IH; eapply inv_step; eassumption].
+  - induction H as [c|c i c1 s c2 H1 H2 IH]; [constructor|].
+    econstructor; [rewrite (tie_inv _ _ I); exact H1 | apply IH; eapply inv_step; eassumption].
 Qed.
 
 Lemma reachable_tie progs c : reachable lock_step progs c <-> reachable rw_step progs c.
-Proof. split; intros [s H]; exists s; apply steps_tie; exact H. Qed.
-
-Lemma enabled_tie c i : enabled lock_step c i <-> enabled rw_step c i.
-Proof. unfold enabled. split; intros [c' H]; exists c'; [rewrite <- tie | rewrite tie]; exact H. Qed.
+Proof. split; intros [s H]; exists s; apply (steps_tie _ _ _ (inv_init progs)); exact H. Qed.
 
 Lemma reach_inv progs c : reachable lock_step progs c -> Inv c.
 Proof. intro H. apply reachable_tie in H. eapply inv_reachable; exact H. Qed.
 
+Lemma enabled_tie c i : Inv c -> (enabled lock_step c i <-> enabled rw_step c i).
+Proof.
+  intro I. unfold enabled. rewrite (tie_inv _ _ I). tauto.
+Qed.
+
+Lemma events_tie s : forall c, Inv c -> events lock_step c s = events rw_step c s.
+Proof.
+  induction s as [|i s IH]; intros c I; simpl; [reflexivity|].
+  rewrite (tie_inv _ _ I). destruct (rw_step c i) as [c1|] eqn:H; [|reflexivity].
+  rewrite (IH c1 (inv_step _ _ _ I H)). reflexivity.
+Qed.
+
 (* ---------------- the theorems, about the regenerated program *)
+Lemma g_tie progs c : reachable lock_step progs c -> forall i, lock_step c i = rw_step c i.
+Proof. intros H i. apply tie_inv. eapply reach_inv; exact H. Qed.
+
 Lemma g_exclusion progs c : reachable lock_step progs c ->
   forall t, inside c t Wr -> forall t', t' <> t -> outside c t'.
 Proof. intros H t. apply exclusion_inv. eapply reach_inv; exact H. Qed.
@@ -72,14 +129,14 @@ Proof.
   destruct (readers_share n) as (c & H & Hin). exists c. split; [apply reachable_tie; exact H | exact Hin].
 Qed.
 
-Lemma g_reader_admitted c i td :
+Lemma g_reader_admitted progs c i td : reachable lock_step progs c ->
   nth_error (ths c) i = Some {| ph := Idle; todo := Rd :: td |} ->
   wa c = false -> ww c <= 0 ->
   exists c', lock_step c i = Some c' /\ inside c' i Rd /\ ar c' = ar c + 1 /\
              (forall j k, j <> i -> inside c j k -> inside c' j k).
 Proof.
-  intros H1 H2 H3. destruct (reader_admitted c i td H1 H2 H3) as (c' & H & R).
-  exists c'. split; [rewrite tie; exact H | exact R].
+  intros Hr H1 H2 H3. destruct (reader_admitted c i td H1 H2 H3) as (c' & H & R).
+  exists c'. split; [rewrite (g_tie _ _ Hr); exact H | exact R].
 Qed.
 
 Lemma g_no_lost_wakeup progs c : reachable lock_step progs c ->
@@ -91,32 +148,36 @@ Lemma g_deadlock_free progs c : reachable lock_step progs c ->
   exists i, enabled lock_step c i.
 Proof.
   intros H U. destruct (deadlock_free_inv c (reach_inv _ _ H) U) as [i Hi].
-  exists i. apply enabled_tie. exact Hi.
+  exists i. apply (enabled_tie _ _ (reach_inv _ _ H)). exact Hi.
 Qed.
 
-Lemma g_schedules_finite c s c' : steps lock_step c s c' -> (length s <= measure c)%nat.
-Proof. intro H. apply steps_tie in H. pose proof (schedules_finite _ _ _ H). lia. Qed.
+Lemma g_schedules_finite progs c s c' : reachable lock_step progs c ->
+  steps lock_step c s c' -> (length s <= measure c)%nat.
+Proof.
+  intros Hr H. apply (steps_tie _ _ _ (reach_inv _ _ Hr)) in H.
+  pose proof (schedules_finite _ _ _ H). lia.
+Qed.
 
 Lemma g_stuck_means_finished progs c : reachable lock_step progs c ->
   (forall i, ~ enabled lock_step c i) ->
   forall i t, nth_error (ths c) i = Some t -> finished t.
 Proof.
   intros H S. apply stuck_means_finished; [eapply reach_inv; exact H|].
-  intros i Hi. apply (S i). apply enabled_tie. exact Hi.
+  intros i Hi. apply (S i). apply (enabled_tie _ _ (reach_inv _ _ H)). exact Hi.
 Qed.
 
 Lemma g_can_complete progs c : reachable lock_step progs c ->
   exists s c', steps lock_step c s c' /\ forallb is_finished (ths c') = true.
 Proof.
   intro H. destruct (can_complete c (reach_inv _ _ H)) as (s & c' & Hs & Hf).
-  exists s, c'. split; [apply steps_tie; exact Hs | exact Hf].
+  exists s, c'. split; [apply (steps_tie _ _ _ (reach_inv _ _ H)); exact Hs | exact Hf].
 Qed.
 
 Lemma g_writer_preference progs c : reachable lock_step progs c ->
   forall w, waiting_writer c w ->
   forall i c' r, lock_step c i = Some c' -> inside c' r Rd -> inside c r Rd.
 Proof.
-  intros H w Hw i c' r Hs. rewrite tie in Hs.
+  intros H w Hw i c' r Hs. rewrite (g_tie _ _ H) in Hs.
   eapply writer_preference_inv; [eapply reach_inv|..]; eassumption.
 Qed.
 
@@ -126,10 +187,17 @@ Lemma g_writer_preference_run progs c1 w : reachable lock_step progs c1 -> waiti
   exists sa ca cb sb, s2 = sa ++ w :: sb /\ steps lock_step c1 sa ca /\ lock_step ca w = Some cb /\
                       inside cb w Wr /\ steps lock_step cb sb c2.
 Proof.
-  intros H Hw s2 c2 i c3 r Hs Hst Ho Hi. apply steps_tie in Hs. rewrite tie in Hst.
-  destruct (writer_preference_run c1 w (reach_inv _ _ H) Hw s2 c2 i c3 r Hs Hst Ho Hi)
+  intros H Hw s2 c2 i c3 r Hs Hst Ho Hi.
+  pose proof (reach_inv _ _ H) as I1.
+  apply (steps_tie _ _ _ I1) in Hs.
+  pose proof (inv_steps _ _ _ I1 Hs) as I2. rewrite (tie_inv _ _ I2) in Hst.
+  destruct (writer_preference_run c1 w I1 Hw s2 c2 i c3 r Hs Hst Ho Hi)
     as (sa & ca & cb & sb & E & S1 & S2 & S3 & S4).
-  exists sa, ca, cb, sb. repeat split; auto; try (apply steps_tie; assumption). rewrite tie; exact S2.
+  pose proof (inv_steps _ _ _ I1 S1) as Ia. pose proof (inv_step _ _ _ Ia S2) as Ib.
+  exists sa, ca, cb, sb. repeat split; auto.
+  - apply (steps_tie _ _ _ I1); exact S1.
+  - rewrite (tie_inv _ _ Ia); exact S2.
+  - apply (steps_tie _ _ _ Ib); exact S4.
 Qed.
 
 Lemma g_inv_spurious progs c i c' : reachable lock_step progs c -> rw_spurious c i = Some c' ->
@@ -137,3 +205,9 @@ Lemma g_inv_spurious progs c i c' : reachable lock_step progs c -> rw_spurious c
 Proof.
   intros H Hs t. apply exclusion_inv. eapply inv_spurious; [eapply reach_inv; exact H | exact Hs].
 Qed.
+
+Lemma g_trace_spec progs s : spec_trace (events lock_step (init progs) s) = (None, None, None).
+Proof. rewrite (events_tie _ _ (inv_init progs)). apply trace_spec_ok. Qed.
+
+Lemma g_trace_share progs s : spec_share (events lock_step (init progs) s) = None.
+Proof. rewrite (events_tie _ _ (inv_init progs)). apply trace_share_ok. Qed.
